@@ -1,10 +1,11 @@
 (* C19 -- a provenance container behaves as a mutable list of formulas.  Statements only. *)
 From Coq Require Import List Arith ZArith Bool.
-From DS Require Import Spec.Dnf Model.Provenance Model.ProvOps Proofs.QueryCorrect Proofs.ProvRefine.
+From DS Require Import Spec.Dnf Model.Provenance Model.ProvOps Proofs.QueryCorrect Proofs.ProvRefine Proofs.SimpleFlag.
 Import ListNotations.
 
 (* refinement, by induction over the edit history: for every start list, every history of legal edits
-   (item assignment, insertion, append, deletion, pop, extend/+=, slice deletion, reverse; formulas wider or
+   (item assignment to one position or to several at once (slice / index list / mask), insertion, append, deletion, pop, extend/+=,
+   slice deletion, reverse; formulas wider or
    narrower than the stored ones) and every assignment, length, every read-back and every query equal those
    of the plain list that underwent the same edits *)
 Theorem C19_refines_list : forall n (fs : list dnf) (ops : list op) (x : assignment),
@@ -39,6 +40,14 @@ Theorem C19_refuted_F13 : exists fs i f, forallb (wf_formulab 3) (f :: fs) = tru
   view (insert_pinned (encode fs) i f) <> insert_nth (norm_insert (length fs) i) f fs.
 Proof. exists [[[(0, 1)]]; [[(1, 1)]]; [[(2, 1)]]], (-1)%Z, [[(0, 0)]]. vm_compute. split; [reflexivity|discriminate]. Qed.
 
+(* the "simple" flag (set by Provenance(units=n), read by the neighbor fast path) is a promise that row i is exactly
+   `unit i = candidate 1`: it holds for the default provenance and after ANY history of edits of the repaired container, which
+   clears the flag on every edit; the pinned container kept the flag (finding F19) *)
+Theorem C19_simple_flag_sound : forall n ops, simple_sound (s_run (s_default n) ops).
+Proof. intros n ops. apply simple_sound_run. apply simple_sound_default. Qed.
+Theorem C19_refuted_F19 : exists n o, legal n (default_formulas n) o /\ ~ simple_sound (s_apply_pinned (s_default n) o).
+Proof. exact simple_refuted_F19. Qed.
+
 Example C19_nonvacuous :
   let fs := [[[(0, 1); (1, 1)]]; [[(2, 1)]; [(0, 0)]]] in
   let ops := [OInsert 1 [[(1, 0)]]; OAppend [[(0, 1)]; [(1, 1)]; [(2, 1); (0, 1); (1, 0)]]; OReverse; ODel 0;
@@ -54,3 +63,5 @@ Print Assumptions C19_repad_invisible.
 Print Assumptions C19_insert_index.
 Print Assumptions C19_refuted_F7.
 Print Assumptions C19_refuted_F13.
+Print Assumptions C19_simple_flag_sound.
+Print Assumptions C19_refuted_F19.
